@@ -74,7 +74,7 @@ def cam(station=1001, stype=5, gdt=100, speed=500, lf=False, lf_bytes=True):
     return msg
 
 
-def denm(station=2001, seq=1, stype=15, situation=True, quality=3):
+def denm(station=2001, seq=1, stype=15, situation=True, quality=3, lane=None, temperature=None):
     msg = {
         "header": {"protocolVersion": 2, "messageId": 1, "stationId": station},
         "denm": {"management": {
@@ -88,6 +88,8 @@ def denm(station=2001, seq=1, stype=15, situation=True, quality=3):
     }
     if situation:
         msg["denm"]["situation"] = {"informationQuality": quality, "eventType": {"ccAndScc": ("accident2", 0)}}
+    if lane is not None:      # a la carte container: signed attributes with meaningful 0 (LanePosition -1..14, Temperature -60..67)
+        msg["denm"]["alacarte"] = {"lanePosition": lane, "externalTemperature": temperature}
     return msg
 
 
@@ -111,10 +113,10 @@ def cpm(station=4001):
 MSGS = {
     "camA": lambda: cam(1001, 5, 100, 500),
     "camB": lambda: cam(1001, 5, 300, 650),          # a later CAM of the same station (update payload)
-    "camC": lambda: cam(1002, 6, 50, 0),
+    "camC": lambda: cam(1002, 0, 0, 0),               # station type unknown(0), generationDeltaTime 0, standing: falsy-but-present values
     "camL": lambda: cam(1002, 6, 50, 0, lf=True),    # with low-frequency container (CHOICE tuple + BIT STRING bytes)
-    "denmA": lambda: denm(2001, 1, 15, True),
-    "denmB": lambda: denm(2002, 2, 5, False),
+    "denmA": lambda: denm(2001, 1, 15, True, lane=-1, temperature=-5),
+    "denmB": lambda: denm(2002, 2, 5, False, lane=0, temperature=0),
     "vamA": lambda: vam(3001, 1),
     "cpmA": lambda: cpm(4001),
 }
